@@ -109,7 +109,7 @@ Definition ascii_int (base : Z) (s : str) : option Z :=
   match s with [] => None | _ => digits_val base 0%Z s end.
 
 (* ---------------------------------------------------------------------------------------------
-   styleanalyzer.State.get_next / compute_path  (src/mwlib/parser/styleanalyzer.py:42-116)
+   styleanalyzer.State.get_next / compute_path  (src/mwlib/parser/styleanalyzer.py:42-127)
    --------------------------------------------------------------------------------------------- *)
 
 Record st := mkst { apo : nat; bold : bool; ital : bool }.
@@ -156,15 +156,28 @@ Fixpoint expand (count : nat) (states : list pst) : res (list pst) :=
 
 Definition init_st : st := mkst 0 false false.
 
+(* one step relation used by the tie and by the de-duplication: equality of (apocount, bold, italic) *)
+Definition st_eqb (a b : st) : bool :=
+  Nat.eqb (apo a) (apo b) && Bool.eqb (bold a) (bold b) && Bool.eqb (ital a) (ital b).
+
+(* styleanalyzer.py:101-110 (fix 93e1f92): states that agree on (apocount, is_bold, is_italic) have the same future;
+   only the first of each key is kept (`seen` set, in list order) *)
+Fixpoint dedup (seen : list st) (l : list pst) : list pst :=
+  match l with
+  | [] => []
+  | x :: r => if existsb (st_eqb (fst x)) seen then dedup seen r else x :: dedup (fst x :: seen) r
+  end.
+
 Section ComputePath.
   (* sort_states: sorted by score; equal scores are ordered by id(), i.e. arbitrarily.  The model takes the
      sorter as a parameter; theorems quantify over every sorter that permutes (and, for C02, sorts). *)
   Variable sorter : list pst -> list pst.
 
   Definition prune (sorted : list pst) : res (list pst) :=
-    match sorted with
-    | [] => Raise EIndex                                                            (* states[0], :98 *)
-    | best :: _ => if is_zero (fst best) then Ok [best] else Ok (firstn 32 sorted)  (* :99-102 *)
+    let unique := dedup [] sorted in                                                (* :101-110 *)
+    match unique with
+    | [] => Raise EIndex                                                            (* states[0], :111 *)
+    | best :: _ => if is_zero (fst best) then Ok [best] else Ok (firstn 32 unique)  (* :112-115 *)
     end.
 
   (* returns the final states and, per step, the number of states generated (work done) *)
@@ -216,7 +229,5 @@ Fixpoint insert_by_score_le (x : pst) (l : list pst) : list pst :=
 Definition antistable_sort (l : list pst) : list pst := fold_right insert_by_score_le [] l.
 
 (* one step relation used by the tie: is `n` a successor of `s` for `count`? *)
-Definition st_eqb (a b : st) : bool :=
-  Nat.eqb (apo a) (apo b) && Bool.eqb (bold a) (bold b) && Bool.eqb (ital a) (ital b).
 Definition is_successor (count : nat) (s n : st) : bool :=
   match get_next count s with Ok l => existsb (st_eqb n) l | Raise _ => false end.
